@@ -229,7 +229,12 @@ impl Server {
                     &self.base_path,
                 )
             })
-            .sorted_by(|a, b| a.label.cmp(&b.label))
+            // (notes with equal titles: down to the inserted link, never the order of the hash map)
+            .sorted_by(|a, b| {
+                a.label
+                    .cmp(&b.label)
+                    .then_with(|| a.insert_text.cmp(&b.insert_text))
+            })
             .collect_vec()
     }
 
